@@ -23,6 +23,8 @@ static const char *const SIB = "cancelled from inside its first handler invocati
 #define NK 4
 #define NS 8
 #define NSIB 2      // extra variants: read and write kinds with a sibling source on the same descriptor
+#define NINACT 3    // extra variants: timer, read, write sources that are never activated: cancel, then cancel_and_wait
+static const char *const INACT = "never activated: dispatch_source_cancel, then dispatch_source_cancel_and_wait (no cancel handler) must return";
 #define HANDLER 100
 #define HANDLER2 101
 enum { EV_CANCEL_CALL = EV_USER, EV_CANCEL_RET, EV_CANCELH, EV_CANCELH2 };
@@ -89,9 +91,9 @@ static void t1_fn(void *arg)
 static void warm_fn(void *c) { *(int *)c = 1; }
 static void wait_int(int *p, int n) { int *a[2] = { p, (int *)(intptr_t)n }; vx_wait_until(pred_int_ge, a); }
 
-static int nvariants(void) { return NK * NS + NSIB; }
-static void decode(int v, int *kind, int *scen) { if (v < NK * NS) { *kind = v / NS; *scen = v % NS; } else { *kind = 2 + (v - NK * NS); *scen = 8; } }
-static void describe(int v, char *b, size_t n) { int k, sc; decode(v, &k, &sc); snprintf(b, n, "%s %s", KN[k], sc == 8 ? SIB : SN[sc]); }
+static int nvariants(void) { return NK * NS + NSIB + NINACT; }
+static void decode(int v, int *kind, int *scen) { if (v < NK * NS) { *kind = v / NS; *scen = v % NS; } else if (v < NK * NS + NSIB) { *kind = 2 + (v - NK * NS); *scen = 8; } else { *kind = 1 + (v - NK * NS - NSIB); *scen = 9; } }
+static void describe(int v, char *b, size_t n) { int k, sc; decode(v, &k, &sc); snprintf(b, n, "%s %s", KN[k], sc == 8 ? SIB : sc == 9 ? INACT : SN[sc]); }
 
 static void feed(void)
 {
@@ -123,7 +125,7 @@ static void run(int v)
 		break;
 	}
 	dispatch_source_set_event_handler_f(g_src, handler);
-	if (g_scen != 5) dispatch_source_set_cancel_handler_f(g_src, cancel_handler);
+	if (g_scen != 5 && g_scen != 9) dispatch_source_set_cancel_handler_f(g_src, cancel_handler);
 	if (g_scen == 7) dispatch_source_set_registration_handler_f(g_src, registration_handler);
 	int th = -1;
 	vx_focus_begin();
@@ -170,6 +172,12 @@ static void run(int v)
 		feed();                      // data merged / byte present before the source is even activated
 		dispatch_activate(g_src);
 		break;
+	case 9:
+		do_cancel(1);
+		vx_ev(EV_CANCEL_CALL, 5, 0);
+		dispatch_source_cancel_and_wait(g_src);
+		vx_ev(EV_CANCEL_RET, 5, g_fd >= 0 ? vx_epoll_armed(g_fd) : -1);
+		break;
 	case 8:
 		dispatch_activate(g_src); feed();
 		wait_int(&g_cancelh, 1);
@@ -180,7 +188,7 @@ static void run(int v)
 		break;
 	}
 	if (th >= 0) vx_join(th);
-	if (g_scen != 5) wait_int(&g_cancelh, 1);
+	if (g_scen != 5 && g_scen != 9) wait_int(&g_cancelh, 1);
 	vx_focus_end();
 	// let a few virtual ms pass: nothing may be delivered any more
 	vx_set_horizon(vx_vt() + 1000 * MS);
@@ -215,7 +223,9 @@ static int check(int v, const vx_log *l, char *msg, size_t len)
 			if (kind >= 2 && e->arg != -1) FAILF(msg, len, "dispatch_source_cancel_and_wait returned while the descriptor was still registered with epoll");
 		}
 	}
-	if (scen != 5 && ncancelh != 1) FAILF(msg, len, "cancellation handler ran %d times (expected exactly once)", ncancelh);
+	if (scen == 9 && ev_count(l, EV_START, HANDLER)) FAILF(msg, len, "event handler ran although the source was cancelled before it was ever activated");
+	if (scen == 9 && ev_count(l, EV_CANCEL_RET, 5) != 1) FAILF(msg, len, "dispatch_source_cancel_and_wait did not return");
+	if (scen != 5 && scen != 9 && ncancelh != 1) FAILF(msg, len, "cancellation handler ran %d times (expected exactly once)", ncancelh);
 	if (scen == 0 && ev_count(l, EV_START, HANDLER)) FAILF(msg, len, "event handler ran although the source was cancelled before activation");
 	if (scen == 8) {
 		if (ev_count(l, EV_CANCELH2, 0) != 1) FAILF(msg, len, "the sibling's cancellation handler ran %d times", ev_count(l, EV_CANCELH2, 0));
